@@ -42,6 +42,7 @@ def step (line : String) : String :=
   | "inv" :: rest => runInv (parseKV rest)
   | "permute" :: rest => runPermute (parseKV rest)
   | "pmeta" :: rest => runPmeta (parseKV rest)
+  | "pmeta2" :: rest => runPmeta2 (parseKV rest)
   | "transpose" :: rest => runTranspose (parseKV rest)
   | "rview" :: rest => runRview (parseKV rest)
   | "fview" :: rest => runFview (parseKV rest)
